@@ -101,8 +101,9 @@ class Domain:
 class RLX(Domain):
     name = "RLX"
 
-    def __init__(self, axioms=False):
+    def __init__(self, axioms=False, exact=False):
         super().__init__()
+        self.exact = exact        # no rounding at all (real arithmetic): used to search for gross errors only
         self.axioms = axioms      # add pairwise monotonicity of rounding (needed for exact-equality specs)
         self.rounded = []
         self.representable = []
@@ -135,6 +136,9 @@ class RLX(Domain):
         """fresh r with |r - exact| <= u*|exact|; memoised on the operation key."""
         if key in self.memo:
             return self.memo[key]
+        if self.exact:
+            self.memo[key] = exact
+            return exact
         r = self.fresh("fl", z3.RealSort())
         u = z3.RealVal(f"{U.numerator}/{U.denominator}")
         self.side.append(z3.If(exact >= 0,
